@@ -1,7 +1,7 @@
 (* Correspondence for C14: a case is a history of API calls on one derived value together with what the real
    code showed after every call; the model is stepped in lockstep and every observation compared. *)
 From Coq Require Import ZArith NArith List Bool.
-From Verif.C14_Derived Require Import Model ModelDVI.
+From Verif.C14_Derived Require Import Model ModelDVI ModelEVR.
 Import ListNotations.
 
 Fixpoint list_eqb {A} (eqb : A -> A -> bool) (a b : list A) : bool :=
@@ -24,6 +24,9 @@ Inductive case :=
 (* a forced schedule of writers on the two inputs of a DerivedVariable2 (+ inheriting variable): the harness held the
    writers at callback boundaries, the schedule lists the model steps in the order the real code was made to take
    them; o = (input1, input2, derived, inheriting) after all writers returned *)
+(* EvictionState with re-entrant handlers: top-level calls whose event handlers are scripts of calls back into the
+   state; o = per call (LastEvictedSlot, triggered per handed-out event in hand-out order, log of the handlers) *)
+| CEVR (h : list EVR.act) (o : list (N * list bool * list N))
 | CDVI (f : DV.fn) (a b : Z) (progs : list (list (bool * Z))) (sched : list nat) (o : Z * Z * Z * Z).
 
 Definition zz_eqb (a b : Z * Z) := Z.eqb (fst a) (fst b) && Z.eqb (snd a) (snd b).
@@ -34,6 +37,17 @@ Definition ss_eqb (a b : list N * list N * N * N) :=
   let '(b1, s1, h1, l1) := a in let '(b2, s2, h2, l2) := b in
   ln_eqb b1 b2 && ln_eqb s1 s2 && N.eqb h1 h2 && N.eqb l1 l2.
 Definition ev_eqb (a b : N * list bool) := N.eqb (fst a) (fst b) && list_eqb Bool.eqb (snd a) (snd b).
+Definition evr_eqb (a : option (N * list bool * list N)) (b : N * list bool * list N) :=
+  match a with
+  | None => false
+  | Some (l1, t1, g1) => let '(l2, t2, g2) := b in N.eqb l1 l2 && list_eqb Bool.eqb t1 t2 && ln_eqb g1 g2
+  end.
+Fixpoint list_eqb2 {A B} (eqb : A -> B -> bool) (a : list A) (b : list B) : bool :=
+  match a, b with
+  | [], [] => true
+  | x :: r, y :: q => eqb x y && list_eqb2 eqb r q
+  | _, _ => false
+  end.
 Definition wg_eqb (a b : list N * bool) := ln_eqb (fst a) (fst b) && Bool.eqb (snd a) (snd b).
 
 Definition agree (c : case) : bool :=
@@ -44,6 +58,7 @@ Definition agree (c : case) : bool :=
   | CSS tb h o => list_eqb ss_eqb (SS.trace (SS.init tb) h) o
   | CEV h o => list_eqb ev_eqb (EV.trace EV.init h) o
   | CWG h o => list_eqb wg_eqb (WG.trace WG.init h) o
+  | CEVR h o => list_eqb2 evr_eqb (EVR.trace EVR.init h) o
   | CDVI f a b progs sched o =>
       let g := fun x y => DV.apply_fn f 0 [x; y] in
       let s := DVI.run false g (DVI.init g a b progs) sched in
